@@ -80,8 +80,10 @@ impl<'t> Macro<'t> {
                     }
 
                     for arg_a in &args_a {
-                        match super::parse::eval_extended(arg_a, None) {
-                            Err(parse::Error::UnknownVariable(arg)) if !args.contains(&&*arg) => {
+                        // evaluate with the formal parameters bound, so that an unbound name is found
+                        // wherever it stands in the expression
+                        match super::parse::eval_extended(arg_a, args.iter().map(|arg| (*arg, 1.0))) {
+                            Err(parse::Error::UnknownVariable(arg)) => {
                                 return Err(Error::UnknownArg(arg).into())
                             }
                             Err(
